@@ -5,7 +5,7 @@ use rustls::pki_types::{CertificateDer, PrivateKeyDer};
 use rustls::server::ServerConfig;
 use rustls::{ClientConfig, RootCertStore};
 use std::sync::Arc;
-use std::{fs::File, io::BufReader, path::Path};
+use std::{io::BufReader, path::Path};
 
 impl From<rustls::Error> for AnyTlsError {
     fn from(err: rustls::Error) -> Self {
@@ -72,25 +72,40 @@ pub fn create_server_config_from_files<P: AsRef<Path>>(
     cert_path: P,
     key_path: P,
 ) -> Result<Arc<ServerConfig>> {
-    let cert_file = File::open(&cert_path).map_err(AnyTlsError::Io)?;
-    let mut cert_reader = BufReader::new(cert_file);
+    let cert_pem = std::fs::read(&cert_path).map_err(AnyTlsError::Io)?;
+    let key_pem = std::fs::read(&key_path).map_err(AnyTlsError::Io)?;
+    create_server_config_from_pem(
+        &cert_pem,
+        &key_pem,
+        &format!("{:?}", cert_path.as_ref()),
+        &format!("{:?}", key_path.as_ref()),
+    )
+}
+
+/// Create server config from PEM data already in memory (`*_name` only label error messages).
+/// Lets a caller derive everything it reports about a certificate from the very bytes that
+/// were loaded, instead of reading the files a second time.
+pub fn create_server_config_from_pem(
+    cert_pem: &[u8],
+    key_pem: &[u8],
+    cert_name: &str,
+    key_name: &str,
+) -> Result<Arc<ServerConfig>> {
+    let mut cert_reader = BufReader::new(cert_pem);
     let certs = rustls_pemfile::certs(&mut cert_reader)
         .collect::<std::result::Result<Vec<_>, _>>()
         .map_err(|e| AnyTlsError::Tls(format!("failed to parse certificate: {e}")))?;
     if certs.is_empty() {
         return Err(AnyTlsError::Tls(format!(
-            "no certificates found in {:?}",
-            cert_path.as_ref()
+            "no certificates found in {}",
+            cert_name
         )));
     }
 
-    let key_file = File::open(&key_path).map_err(AnyTlsError::Io)?;
-    let mut key_reader = BufReader::new(key_file);
+    let mut key_reader = BufReader::new(key_pem);
     let key = rustls_pemfile::private_key(&mut key_reader)
         .map_err(|e| AnyTlsError::Tls(format!("failed to parse private key: {e}")))?
-        .ok_or_else(|| {
-            AnyTlsError::Tls(format!("no private key found in {:?}", key_path.as_ref()))
-        })?;
+        .ok_or_else(|| AnyTlsError::Tls(format!("no private key found in {}", key_name)))?;
 
     let config = ServerConfig::builder()
         .with_no_client_auth()
